@@ -7,7 +7,7 @@ import ast
 from pyexpr2lean import (Gen, Tr, Untranslatable, load, get_def, find_assign, find_assigns, find_returns,
                          find_calls, body_to_lean)
 from gen_c10 import (norm, nenv, sub_assigns, for_loops, range_args, index_of, reads_of, tuple_unpack_calls,
-                     returns_in_order, I, N, HDR, snorm, stmt_is)
+                     returns_in_order, I, N, HDR, snorm, stmt_is, GenT, tri, alpha_norm)
 
 JAC = 'prysm/polynomials/jacobi.py'
 QP = 'prysm/polynomials/qpoly.py'
@@ -33,7 +33,14 @@ def der_table(fn, top, coef_fn, coef_pos_name):
     if len(ra) != 3:
         raise Untranslatable('inner range() without explicit stop/step')
     # seed: the write to alphas[jj][...] in the outer body, outside the inner loop
-    seeds = [w for w in sub_assigns(outer, 'alphas') if w[0] < inner.lineno]
+    def is_slice_write(t):
+        return any(isinstance(i, ast.Slice) for i in index_of(t))
+    pre = [w for w in sub_assigns(outer, 'alphas') if w[0] < inner.lineno]
+    # whole-slice writes (zeroing the row / the entries above the seed) are not the seed; they must write zeros
+    slices = [w for w in pre if is_slice_write(w[1])]
+    if any(ast.unparse(w[2]) != '0' for w in slices):
+        raise Untranslatable('a slice of the table is assigned something other than 0')
+    seeds = [w for w in pre if not is_slice_write(w[1]) and not any(w[1] in ast.walk(g_) for g_ in outer.body if isinstance(g_, ast.If))]
     if len(seeds) != 1:
         raise Untranslatable('expected exactly one seed write per row')
     _, st, sv = seeds[0]
@@ -44,10 +51,11 @@ def der_table(fn, top, coef_fn, coef_pos_name):
     _, wt, wv = steps[0]
     widx = index_of(wt)
     # guard: `if jj > top: break` before the seed
+    # rows above the degree: `if jj > top:` followed by `break` (zero-initialised table) or by zeroing the row and `continue`
     guard = False
     for s in outer.body:
-        if isinstance(s, ast.If) and s.lineno < st.lineno and norm(ast.unparse(s.test)) in (norm(f'{jj} > {top}'), norm(f'{top} < {jj}'), norm(f'{top} - {jj} < 0')) \
-                and any(isinstance(b, ast.Break) for b in s.body):
+        if isinstance(s, ast.If) and s.lineno < st.lineno and norm(ast.unparse(s.test)) in (norm(f'{jj} > {top}'), norm(f'{top} < {jj}'), norm(f'{top} - {jj} < 0'), norm(f'{jj} >= {top} + 1')) \
+                and any(isinstance(b, (ast.Break, ast.Continue)) for b in s.body):
             guard = True
     info = {
         'jj': jj, 'v': v, 'names': names,
@@ -66,7 +74,7 @@ def pairs(lst):
 
 
 def generate(repo):
-    g = Gen('C09', imports=['PrysmVerif.PyPrelude', 'PrysmVerif.Model.C09'], header=HDR)
+    g = GenT('C09', imports=['PrysmVerif.PyPrelude', 'PrysmVerif.Model.C09'], header=HDR)
     jac, _ = load(repo, JAC)
     qp, _ = load(repo, QP)
     her, _ = load(repo, HER)
@@ -83,7 +91,7 @@ def generate(repo):
             f'def {prefix}WritePos (TOP {jj} j {v} : Int) : Int × Int := ({info["writeRow"]}, {info["writeIdx"]})'.replace('TOP', info['names'][0]),
             f'def {prefix}StepReads (TOP {jj} j {v} : Int) : List (Int × Int) := {pairs(info["stepReads"])}'.replace('TOP', info['names'][0]),
             f'def {prefix}Loop (TOP {jj} j : Int) : Int × Int × Int := ({info["loop"][0]}, {info["loop"][1]}, {info["loop"][2]})'.replace('TOP', info['names'][0]),
-            f'def {prefix}RowsAboveDegreeStayZero : Bool := {"true" if info["guard"] else "false"}',
+            f'def {prefix}RowsAboveDegreeStayZero : Bool := {tri(info["guard"])}',
         ] + extra)
 
     def fb_table(prefix, top, seed, step, extra):
@@ -92,7 +100,7 @@ def generate(repo):
             f'def {prefix}SeedPos ({top} jj j : Int) : Int × Int := (jj, {top} - jj)',
             f'def {prefix}SeedReads ({top} jj j : Int) : List (Int × Int) := [(jj - 1, {top} - jj + 1)]',
             f'def {prefix}WritePos ({top} jj j n : Int) : Int × Int := (jj, n)',
-            f'def {prefix}StepReads ({top} jj j n : Int) : List (Int × Int) := [(jj, n + 1), (jj, n + 2), (jj - 1, n + 1)]',
+            f'def {prefix}StepReads ({top} jj j n : Int) : List (Int × Int) := [(jj - 1, n + 1), (jj, n + 1), (jj, n + 2)]',
             f'def {prefix}Loop ({top} jj j : Int) : Int × Int × Int := ({top} - jj - 1, -1, -1)',
             f'def {prefix}RowsAboveDegreeStayZero : Bool := true'] + extra)
 
@@ -128,7 +136,7 @@ def generate(repo):
             f'def jderSeedABCIdx (M {jj} j : Int) : Int := {seed_abc}',
             f'def jderABCIdx (M {jj} j {v} : Int) : Int × Int × Int := ({feed["a"][1]}, {feed["b"][1]}, {feed["c"][1]})',
             f'def jderABCPositions : Int × Int × Int := ({feed["a"][0]}, {feed["b"][0]}, {feed["c"][0]})',
-            f'def jderRowZeroIsTheValueSweep : Bool := {"true" if row0_ok and M_ok and ret_ok and seed_first else "false"}',
+            f'def jderRowZeroIsTheValueSweep : Bool := {tri(row0_ok and M_ok and ret_ok and seed_first)}',
         ]
         return emit_table('jder', info, f'def jderSeed (jj j a p1 : K) : K := {seed}',
                           f'def jderStep (jj j a b c x p1 c1 c2 : K) : K := {step}', extra)
@@ -154,7 +162,7 @@ def generate(repo):
         M_ok = norm(ast.unparse(find_assign(fn, 'M'))) == norm('len(cs) - 1') and norm(ast.unparse(find_assign(fn, 'x'))) == 'usq'
         ret_ok = norm(ast.unparse(returns_in_order(fn)[-1])) == 'alphas'
         extra = [f'def qbfsderPrefix (x : K) : K := {prefix}',
-                 f'def qbfsderRowZeroIsTheValueSweep : Bool := {"true" if row0_ok and M_ok and ret_ok else "false"}']
+                 f'def qbfsderRowZeroIsTheValueSweep : Bool := {tri(row0_ok and M_ok and ret_ok)}']
         return emit_table('qbfsder', info, f'def qbfsderSeed (jj j p1 : K) : K := {seed}',
                           f'def qbfsderStep (jj j pre p1 c1 c2 : K) : K := {step}', extra)
     g.item('clenshaw_qbfs_der', f'{QP}:clenshaw_qbfs_der', lambda: get_def(qp, 'clenshaw_qbfs_der'), qbfsder,
@@ -195,7 +203,7 @@ def generate(repo):
             f'def q2dderSeedCoefPosition : Int := {seed_pos[0] if seed_pos else -1}',
             f'def q2dderABCIdx (N {jj} j {v} : Int) : Int × Int × Int := ({feed["a"][1]}, {feed["b"][1]}, {feed["c"][1]})',
             f'def q2dderABCPositions : Int × Int × Int := ({feed["a"][0]}, {feed["b"][0]}, {feed["c"][0]})',
-            f'def q2dderRowZeroIsTheValueSweep : Bool := {"true" if row0_ok and N_ok and ret_ok else "false"}',
+            f'def q2dderRowZeroIsTheValueSweep : Bool := {tri(row0_ok and N_ok and ret_ok)}',
         ]
         return emit_table('q2dder', info, f'def q2dderSeed (jj j b p1 : K) : K := {seed}',
                           f'def q2dderStep (jj j a b c x p1 c1 c2 : K) : K := {step}', extra)
@@ -231,7 +239,7 @@ def generate(repo):
             factor = Tr(nenv({'n': 'n', ast.unparse(call): 'v'}), mode='num').expr(ret)
             out.append(f'def {lname}DerClosed (n v : K) : K := {factor}')
             out.append(f'def {lname}DerOrder (n : Int) : Int := {order}')
-            out.append(f'def {lname}DerZeroAtOrderZeroAndSamePoint : Bool := {"true" if arg_ok else "false"}')
+            out.append(f'def {lname}DerZeroAtOrderZeroAndSamePoint : Bool := {tri(arg_ok)}')
         return '\n'.join(out)
     g.item('hermite_der', f'{HER}:hermite_He_der,hermite_H_der', lambda: get_def(her, 'hermite_H_der'), hermite_der,
            '\n'.join(['def heDerClosed (n v : K) : K := n * v', 'def heDerOrder (n : Int) : Int := n - 1',
@@ -267,7 +275,7 @@ def generate(repo):
             out.append(f'def {lname}RecStep (nn x p1 p0 : K) : K := {step}')
             out.append(f'def {lname}P1 (x : K) : K := {r1}')
             out.append(f'def {lname}P2 (x : K) : K := {p2}')
-            out.append(f'def {lname}RecStructure : Bool := {"true" if rng_ok and shift and r0 and seeds_ok else "false"}')
+            out.append(f'def {lname}RecStructure : Bool := {tri(rng_ok and shift and r0 and seeds_ok)}')
         return '\n'.join(out)
     g.item('hermite_recurrence', f'{HER}:hermite_He,hermite_H', lambda: get_def(her, 'hermite_H'), hermite_rec,
            '\n'.join(['def heRecStep (nn x p1 p0 : K) : K := x * p1 - (nn - ofInt 1) * p0', 'def heP1 (x : K) : K := x',
@@ -313,14 +321,14 @@ def generate(repo):
         return '\n'.join([
             f'def lagDerOrder (n : Int) : Int := {order}',
             f'def lagDerShape (alpha : K) : K := {shape_}',
-            f'def lagDerIsMinusOneToTheKTimesLaguerreAtSamePoint : Bool := {"true" if k_ok and sign_ok and arg_ok else "false"}',
+            f'def lagDerIsMinusOneToTheKTimesLaguerreAtSamePoint : Bool := {tri(k_ok and sign_ok and arg_ok)}',
             f'def lagRecN (np1 : K) : K := {n_of}',
             f'def lagRecA (alpha n x : K) : K := {A}',
             f'def lagRecB (alpha n : K) : K := {B}',
             f'def lagRecStep (n A B l1 l0 : K) : K := {step}',
             f'def lagL1 (alpha x : K) : K := {l1}',
             f'def lagL2 (alpha x l1 l0 : K) : K := (fun A B => {l2}) ({A2}) ({B2})',
-            f'def lagRecStructure : Bool := {"true" if rng_ok and r0 and shift else "false"}',
+            f'def lagRecStructure : Bool := {tri(rng_ok and r0 and shift)}',
         ])
     g.item('laguerre', f'{LAG}:laguerre,laguerre_der', lambda: get_def(lag, 'laguerre_der'), laguerre_items,
            '\n'.join(['def lagDerOrder (n : Int) : Int := n - 1', 'def lagDerShape (alpha : K) : K := alpha + ofInt 1',
@@ -355,7 +363,7 @@ def generate(repo):
             f'def jacDerOrder (n : Int) : Int := {order}',
             f'def jacDerShape (alpha beta : K) : K × K := ({a1}, {b1})',
             f'def jacDerAtOrderOne (alpha beta : K) : K := {one_val}',
-            f'def jacDerIsCoefTimesJacobiAtSamePoint : Bool := {"true" if arg_ok and ret_ok else "false"}',
+            f'def jacDerIsCoefTimesJacobiAtSamePoint : Bool := {tri(arg_ok and ret_ok)}',
         ])
     g.item('jacobi_der', f'{JAC}:jacobi_der', lambda: get_def(jac, 'jacobi_der'), jacobi_der_item,
            '\n'.join(['def jacDerCoef (n alpha beta : K) : K := ofFrac 1 2 * (n + alpha + beta + ofInt 1)',
@@ -402,7 +410,7 @@ def generate(repo):
             f'def zernDr (v du u dv : K) : K := {dr}',
             f'def zernDtNeg (am c : K) : K := {dt_neg}',
             f'def zernDtPos (m s : K) : K := {dt_pos}',
-            f'def zernStructure : Bool := {"true" if am_ok and v_ok and u_ok and dr_m0 and dt0 and aug_ok and br_ok and ret_ok else "false"}',
+            f'def zernStructure : Bool := {tri(am_ok and v_ok and u_ok and dr_m0 and dt0 and aug_ok and br_ok and ret_ok)}',
         ])
     g.item('zernike_nm_der', f'{ZER}:zernike_nm_der', lambda: get_def(zer, 'zernike_nm_der'), zern,
            '\n'.join(['def zernX (r : K) : K := ofInt 2 * npow r 2 - ofInt 1', 'def zernNj (n am : Int) : Int := (n - am) / 2',
@@ -438,7 +446,7 @@ def generate(repo):
         return '\n'.join([
             f'def zzQbfsMany (a00 a01 a10 a11 u usq : K) : K × K :=\n  {many}',
             f'def zzQbfsOne (a00 a10 u usq : K) : K × K :=\n  {one}',
-            f'def zzQbfsUsesFirstDerivativeTable : Bool := {"true" if call_ok and pr_ok else "false"}',
+            f'def zzQbfsUsesFirstDerivativeTable : Bool := {tri(call_ok and pr_ok)}',
         ])
     g.item('compute_z_zprime_Qbfs', f'{QP}:compute_z_zprime_Qbfs', lambda: get_def(qp, 'compute_z_zprime_Qbfs'), zzqbfs,
            '\n'.join(['def zzQbfsMany (a00 a01 a10 a11 u usq : K) : K × K := '
@@ -459,7 +467,7 @@ def generate(repo):
         return '\n'.join([
             f'def zzQconX (usq : K) : K := {x}',
             f'def zzQconAssemble (a00 a10 u usq : K) : K × K :=\n  {body}',
-            f'def zzQconUsesJacobi04FirstDerivativeTable : Bool := {"true" if call_ok else "false"}',
+            f'def zzQconUsesJacobi04FirstDerivativeTable : Bool := {tri(call_ok)}',
         ])
     g.item('compute_z_zprime_Qcon', f'{QP}:compute_z_zprime_Qcon', lambda: get_def(qp, 'compute_z_zprime_Qcon'), zzqcon,
            '\n'.join(['def zzQconX (usq : K) : K := ofInt 2 * usq - ofInt 1',
@@ -494,7 +502,7 @@ def generate(repo):
             f'def zzQ2dBTerm (s tw Spb m Sb : K) : K := {bt}',
             f'def zzQ2dDr (umm1 ta tb : K) : K := {dr}',
             f'def zzQ2dDt (m um Sa Sb s c : K) : K := {dt}',
-            f'def zzQ2dSlopeStructure : Bool := {"true" if umm1_ok and usq_ok and calls_ok and m0_ok and ret_ok else "false"}',
+            f'def zzQ2dSlopeStructure : Bool := {tri(umm1_ok and usq_ok and calls_ok and m0_ok and ret_ok)}',
         ])
     g.item('compute_z_zprime_Q2d.slopes', f'{QP}:compute_z_zprime_Q2d', lambda: get_def(qp, 'compute_z_zprime_Q2d'), zzq2d,
            '\n'.join(['def zzQ2dTwoUsq (usq : K) : K := ofInt 2 * usq',
@@ -558,7 +566,7 @@ def generate(repo):
             raise Untranslatable('phi_spheroid does not return np.sqrt(...)')
         rad = body_to_lean(pbody[:-1] + [ast.Return(value=pbody[-1].value.args[0])], Tr(nenv({n: n for n in ['c', 'k', 'rhosq']}), mode='num'), '  ')
         out.append(f'def surfPhiSpheroidRad (c k rhosq : K) : K :=\n  {rad}')
-        out.append(f'def surfDirCosUsesPhiSpheroidOfRhoSquared : Bool := {"true" if rs_ok and ph_ok else "false"}')
+        out.append(f'def surfDirCosUsesPhiSpheroidOfRhoSquared : Bool := {tri(rs_ok and ph_ok)}')
         return '\n'.join(out)
     g.item('surfaces.conics', f'{SUR}:sphere_sag,conic_sag,sphere_sag_der,conic_sag_der,der_direction_cosine_spheroid,phi_spheroid',
            lambda: get_def(sur, 'conic_sag_der'), simple_conics,
@@ -635,11 +643,11 @@ def generate(repo):
                 'base_primer, base_primet = off_axis_conic_der(c, k, r, t, dx, dy)',
                 'sigma = off_axis_conic_sigma(c, k, r, t, dx, dy)', 'sigma = 1 / sigma',
                 'sigmaprimer, sigmaprimet = off_axis_conic_sigma_der(c, k, r, t, dx, dy)']
-        ok = [ast.unparse(s) for s in head] == [snorm(w) for w in want]
+        ok = alpha_norm(head) == alpha_norm(ast.parse('\n'.join(want)).body)
         pr = get_def(sur, 'product_rule')
         pr_ok = norm(ast.unparse(returns_in_order(pr)[-1])) == norm('u * dv + v * du') and [a.arg for a in pr.args.args] == ['u', 'v', 'du', 'dv']
         return (f'def surfQ2dAsm (sigInv z zr zt sr st base br bt Rn : K) : K × K × K :=\n  {asm}\n'
-                f'def surfQ2dFeedsTheAssemblyFromTheNamedRoutines : Bool := {"true" if ok and pr_ok else "false"}')
+                f'def surfQ2dFeedsTheAssemblyFromTheNamedRoutines : Bool := {tri(ok and pr_ok)}')
     g.item('surfaces.Q2d_and_der', f'{SUR}:Q2d_and_der', lambda: get_def(sur, 'Q2d_and_der'), q2d_and_der,
            'def surfQ2dAsm (sigInv z zr zt sr st base br bt Rn : K) : K × K × K := Model.C09.q2dAndDer sigInv z zr zt sr st base br bt Rn\n'
            'def surfQ2dFeedsTheAssemblyFromTheNamedRoutines : Bool := true')
